@@ -8,7 +8,7 @@ MANIFEST = dict(
    note="PARTIAL: outside good/J1 the pinned code violates the property (integer type, nullable unions, sibling keywords next to $ref/allOf/anyOf/oneOf/const/enum/format, keywords without type, open tuples, optional properties accepting null, required on the record path, open objects closed by the round trip, intersection semantics, strict mode silent/unreached keywords): open findings. Not modelled: recursive $ref (non-object cycles would overflow the stack in from.go), user regexes beyond the five emitted shapes, the round-trip document of const/enum with array/object members (their conversion and Parse behaviour IS modelled: fromEnumJ / parsePanicsJ, finding composite-literal, root documents only), format semantics (relative to a sample universe agreed on by gozod and the validator), round trip of format schemas. Trusted as for C07.",
    design="DESIGN.md §5 C11")
 
-MODULES = ["Gozod.Proofs.C11"]
+MODULES = ["Gozod.Proofs.C11", "Gozod.Proofs.C11Reads"]
 THEOREMS = ["Gozod.C11.c11_equiv_partial", "Gozod.C11.conv", "Gozod.C11.equivJ", "Gozod.C11.c11_roundtrip",
             "Gozod.C11.c11_strict_rejects", "Gozod.C11.c11_strict_silent", "Gozod.C11.c11_strict_full_false",
             "Gozod.C11.witness_integer_rejects_numbers", "Gozod.C11.witness_nullable_union",
@@ -22,7 +22,13 @@ THEOREMS = ["Gozod.C11.c11_equiv_partial", "Gozod.C11.conv", "Gozod.C11.equivJ",
             "Gozod.C11.fromEnumJ_prims", "Gozod.C11.fromConstJ_prim", "Gozod.C11.enumValidJ_prims", "Gozod.C11.constValidJ_prim",
             "Gozod.C11.jsonEq_ofPrim", "Gozod.C11.jsonEq_str_left", "Gozod.C11.jsonEq_str_right",
             "Gozod.C11.deepEqual_eq", "Gozod.C11.literalEqual_eq", "Gozod.C11.ifaceEq_panics", "Gozod.C11.jsonEq_symm", "Gozod.C11.jsonEq_refl",
-            "Gozod.C11.legacy_composite_member_panics", "Gozod.C11.witness_null_member", "Gozod.C11.c11_members_full_false"]
+            "Gozod.C11.legacy_composite_member_panics", "Gozod.C11.witness_null_member", "Gozod.C11.c11_members_full_false",
+            "Gozod.C11.convString_frame", "Gozod.C11.reads_convertString", "Gozod.C11.convNumber_frame", "Gozod.C11.reads_convertNumber",
+            "Gozod.C11.convInteger_frame", "Gozod.C11.reads_convertInteger", "Gozod.C11.convArray_frame", "Gozod.C11.reads_convertArray",
+            "Gozod.C11.reads_convertTuple", "Gozod.C11.convObject_frame", "Gozod.C11.reads_convertObject", "Gozod.C11.convByType_frame",
+            "Gozod.C11.reads_convertByType", "Gozod.C11.assemble_frame", "Gozod.C11.reads_convert", "Gozod.C11.reads_dispatch_members",
+            "Gozod.C11.reads_attachMeta", "Gozod.C11.converter_reads_documented", "Gozod.C11.documented_are_read",
+            "Gozod.C11.strict_rejects_iff_read", "Gozod.C11.strict_reads_in_table", "Gozod.C11.converted_not_rejected"]
 GEN = os.path.join(C.LEAN, "Gozod", "Gen", "KeywordTable.lean")
 
 def extract_table(res):
@@ -150,6 +156,9 @@ def run(res):
                           "  repro: FromJSONSchema(compile({%r: <sample>}), StrictMode: true) returns no error\n" % (k, k))
         if not new:
             C.tie_broken(res, "proof Gozod.Proofs.C11", detail + "\nno longer silent: %r" % [k for k in exp if k not in now])
+    # structure fingerprints of the hand-transcribed functions (vlib/fingerprints/C11.json): a changed structure with a green
+    # correspondence is a broken tie (the transcription may no longer mirror the function); a text-only change is noted
+    changed = C.fingerprint(res, "C11")
     data, err = C.correspond(res, "C11")
     if data is None:
         C.tie_broken(res, "correspondence C11/fromJ0", err)
@@ -176,6 +185,14 @@ def run(res):
     known_open, _ = C.load_known("C11")
     C.decide(res, "C11", (ops2, impl, model2, stats), make_key([k["key"] for k in known_open], rejected),
              "C11/fromJS+acceptsDecoded+keywordTable")
+    structural = [c for c in changed if c[2] in ("structure", "missing")]
+    if structural and not any(sfx == "" for _, sfx in res.violations):
+        C.tie_broken(res, "structure fingerprint C11", "these functions no longer have the structure the Lean transcription was written against "
+                     "(switch cases / calls / literals / control-flow skeleton), and the correspondence run found no disagreement:\n"
+                     + "\n".join("  %s [%s: %s] transcribed by %s" % (c[0], c[2], c[3], c[1]) for c in structural)
+                     + "\nre-validate the transcription, then `./check --fingerprint C11 --update`")
+    for c in changed:
+        if c[2] == "text": res.notes.append("source text of %s changed (structure unchanged); transcribed by %s" % (c[0], c[1]))
     res.coverage["cases_in_equivalence_fragment"] = sum(1 for o in ops2 if "IN-EQ" in C.op_comment(o))
     res.coverage["cases_in_roundtrip_fragment"] = sum(1 for o in ops2 if "IN-RT" in C.op_comment(o))
     hist = stats.get("histogram", {}) if isinstance(stats, dict) else {}
